@@ -14,7 +14,7 @@ def check(tier, seed):
         "well-foundedness of the shipped recurrences (termination) is not proved here; detection of direct self-reference is (C19)",
     ]
     d.not_decided += [
-        "quantifier 'all generated well-founded programs in the documented grammar': the two shipped algorithms and the seventeen programs of the corpus "
+        "quantifier 'all generated well-founded programs in the documented grammar': the two shipped algorithms and the twenty programs of the corpus "
         "contracts/dsl_corpus.py (every grammar production in every documented context) are validated deductively, each for all flag combinations, all "
         "index classes, symbolic block count / orders / parameter count; an arbitrary program is not (that needs a proof about the compiler itself, which is a set of "
         "Python AST transformers outside this technique's reach); the constructs of known finding F-DSL are left out of the corpus",
@@ -24,10 +24,10 @@ def check(tier, seed):
                      "with the independently extracted equation; deletions are proved to touch only non-start, non-blacklisted, not-in-flight "
                      "entries; series_computation's wiring (start data, evaluators, products and their flags, linear-operator twins, scope) is "
                      "proved for concrete block/parameter counts; the Cauchy product and cache units it relies on are re-run here.  The same translation validation runs on a "
-                     "corpus of seventeen further programs (contracts/dsl_corpus.py: adjoints of series and products in unconditional / diagonal / offdiagonal / lower "
+                     "corpus of twenty further programs (contracts/dsl_corpus.py: adjoints of series and products in unconditional / diagonal / offdiagonal / lower "
                      "context, scope functions of series and expressions, (anti)hermitian markers at any position, all start kinds, divisions, flags, terms "
                      "deleted after a single use), against the documented meaning read by the independent reader.")
-    d.run_battery("dsl_battery.py", ["all"], "the seventeen corpus programs compiled and run natively by series_computation against a direct interpreter of the extracted definitions: "
+    d.run_battery("dsl_battery.py", ["all"], "the twenty corpus programs compiled and run natively by series_computation against a direct interpreter of the extracted definitions: "
                   "2-3 blocks of sizes 1-3, 1-2 parameters, total order <= 3, four request schedules (ascending; descending, off-diagonal first; shuffled with repeats; "
                   "intermediates and declared products before outputs), offdiag given / None, both values of the flags")
     return d.finish(level="proof", trusted_base=["contracts/algorithm_evals.py", "contracts/dsl_corpus.py", "leanalg/extract.py", "contracts/series_product.py", "contracts/series_index.py"])
